@@ -435,11 +435,14 @@ LAYOUT_CLASS = {"C": "C", "F": "F", "T": "F", "S": "A", "R": "A"}     # what num
 
 
 def moderate_valmap(dtype):
+    """codes 0..4 -> small values valid in the dtype"""
     if dtype.startswith("float"):
-        return {"0": "0.5", "1": "-2.25", "2": "7.0"}
-    if dtype.startswith("u"):
-        return {"0": "0", "1": "7", "2": "3"}
-    return {"0": "-3", "1": "5", "2": "0"}
+        vals = ["0.5", "-2.25", "7.0", "1.5", "3.0"]
+    elif dtype.startswith("u"):
+        vals = ["0", "7", "3", "1", "2"]
+    else:
+        vals = ["-3", "5", "0", "1", "2"]
+    return {str(i): v for i, v in enumerate(vals)}
 
 
 def extreme_valmap(dtype):
@@ -494,6 +497,40 @@ def regions_variant(j, dtype, layout, valmap, tag):
     return v
 
 
+# ---------------------------------------------------------------- many regions in a narrow dtype
+def narrow_jobs(rng, tier):
+    """rasters with 100 .. 400 provisional / final regions in int8 / uint8 (thresholds 128 and 256) and, for the
+    same sizes, int16 / uint16 / int32 / float32: labels are stored in an array derived from the input, so they
+    must not wrap (positive, one per component).  16-bit thresholds (32768+ regions) are beyond what the TLC judge
+    can take and are not generated."""
+    sizes = [(12, 12), (16, 16), (11, 13), (20, 20)] if tier == "quick" else \
+        [(10, 13), (12, 12), (11, 12), (16, 16), (16, 17), (15, 17), (20, 20), (8, 40), (40, 7), (2, 140), (130, 2)]
+    kinds = ["checker", "noise5", "stripes", "teeth"]
+    wide = ["int16", "uint16", "int32", "float32"]
+    jobs = []
+    k = 0
+    for (H, W) in sizes:
+        for kind in kinds:
+            if kind == "checker":
+                g = [[(r + c) % 2 for c in range(W)] for r in range(H)]
+            elif kind == "noise5":
+                g = [[rng.randrange(5) for _ in range(W)] for _ in range(H)]
+            elif kind == "stripes":          # one-cell columns, broken every few rows: many small regions
+                g = [[(c % 2) if (r % 3) else 2 for c in range(W)] for r in range(H)]
+            else:                            # teeth hanging from every second row: many provisional labels per region
+                g = [[1 if (r % 2 == 1 or c % 2 == 0) else 0 for c in range(W)] for r in range(H)]
+                g = g[::-1]
+            g = sym(g, rng.randrange(8)) if kind != "checker" else g
+            for dt in ("int8", "uint8", wide[k % 4]):
+                nbs = (4, 8) if tier == "thorough" else (4,) if kind == "checker" else ((4, 8)[k % 2],)
+                for nb in nbs:
+                    j = plain_job(g, nb, "narrow_%s_%s" % (kind, dt))
+                    j.update(dtype=dt, valmap=moderate_valmap(dt))
+                    jobs.append(j)
+                k += 1
+    return jobs
+
+
 # ---------------------------------------------------------------- bookkeeping
 def has_nonrectangle(case):
     """count rule: some label class of the (accepted) result is not a full rectangle"""
@@ -518,6 +555,8 @@ def violation_key(c, cl):
     j = c["job"]
     vm = j.get("valmap") or {}
     dt = j.get("dtype", "float64")
+    if j.get("tag", "").startswith("narrow_") and dt in ("int8", "uint8", "int16", "uint16"):
+        return "regions:labels-overflow-narrow-dtype"
     if dt.startswith("int") and cl in ("component_split", "components_joined"):
         lo = str(-2 ** (int(dt[3:]) - 1))
         if lo in vm.values() and any(vm.get(str(v)) == lo for row in j["vals"] for v in row):
@@ -585,12 +624,13 @@ def run(ctx):
             H=H, W=W, VALS=set(base), N=n, MUT="none")), name, coverage=(name == "3x3_b_n4"), timeout=4 * 3600,
            workers=(4 if H * W <= 12 else 16))      # small scopes: extra TLC workers only burn CPU
     # negative twins: TLC must reject each broken variant of the two passes
-    twins = [("nopass2", 3, 3, 4), ("noelse", 3, 3, 4), ("localreplace", 3, 3, 4)]
+    twins = [("nopass2", 3, 3, 4), ("noelse", 3, 3, 4), ("localreplace", 3, 3, 4),
+             ("absmin", 2, 3, 4), ("wrap64", 2, 3, 8)]     # the comparison defects repaired in repo commit 8648623
     if ctx.tier == "thorough":
         twins.append(("alwaysnew", 3, 4, 4))        # needs an interior isolated pair: 100k states
     for mut, H, W, n in twins:
         ctx.model_check("Regions", dict(spec="Spec", invariants=["PartitionIsComponents"], constants=dict(
-            H=H, W=W, VALS={0, 1}, N=n, MUT=mut)), "neg_" + mut, expect="violation", workers=4)
+            H=H, W=W, VALS={0, 1}, N=n, MUT=mut)), "neg_" + mut, expect="violation", workers=(2 if H * W <= 6 else 4))
     ctx.exhaustive = True
 
     # ---- one round of worker processes for everything that runs the real code
@@ -600,7 +640,7 @@ def run(ctx):
     sizes = [(h, w) for h in (4, 5, 6) for w in (4, 5, 6)]
     fjobs = (placement_jobs(rng, sizes) + hook_jobs() + multiarm_jobs(rng, ctx.pick(1500, 12000))
              + small_random_jobs(rng, ctx.pick(3000, 40000)))
-    tjobs = fjobs + random_jobs(rng, ctx.pick(300, 4000), 10)
+    tjobs = fjobs + random_jobs(rng, ctx.pick(300, 4000), 10) + narrow_jobs(rng, ctx.tier)
     # input-variation matrix: layout x dtype on a seeded sample of every family (same result expected)
     nproc = ctx.pick(8, 16)
     fam = {}
